@@ -218,7 +218,7 @@ static void writer_body(int rounds, int seedv) {
           else if (sz < 10) mine.insert(mine.begin() + sz / 2, CountIt<E>{r}, CountIt<E>{r + 2});  // single-pass range, not at the end
           break;
         case 5: if (sz > 0) mine.erase(mine.begin() + sz / 2); break;
-        case 6: other.assign(3, E(r)); sink += (mine == other) + (mine < other); break;
+        case 6: other.assign(static_cast<typename C::size_type>(3 + (r / 10) % 7), E(r)); sink += (mine == other) + (mine < other); break;  // 3..9: the common prefix of the swap below varies
         case 7: mine.swap(other); break;
         case 8:
           try {
